@@ -199,10 +199,6 @@ class Oracle:
                     continue
                 a, b = (restrict_v1(ent[1]), restrict_v1(sy)) if version == 1 else (ent[1], sy)
                 d = S.diff(a, b, rtol=RTOL, atol=ATOL, limit=2)
-                if d and all(e[0] == ".mult" and e[1] == 0 and e[2] == 1 for e in d):
-                    # that one mechanism has its own key; the object is otherwise the stored one
-                    self.report(f"roundtrip-differs:{tag}:mult:zero-replaced-by-default", route=route, diff=d)
-                    d = []
                 if not d:
                     ent[2] = hit = True
                     break
